@@ -183,7 +183,7 @@ func runC18(r *Run) {
 
 	// ---- R6: no clock sample is stored into the long-lived bounds these filters compare with (rules_t7c02clock.go)
 	r.Rule("C18.R6")
-	noStaleClock(r, []clkFilter{{"trillian/ctfe.ValidateChain", 3}, {"(*client.TemporalLogClient).IndexByDate", 2}, {"(*loglist3.LogList).TemporallyCompatible", 3}})
+	noStaleClock(r, []clkFilter{{"trillian/ctfe.ValidateChain", 3}, {"(*client.TemporalLogClient).IndexByDate", 2}, {"(*loglist3.LogList).TemporallyCompatible", 2}})
 }
 
 func wSliceBase(v ssa.Value) ssa.Value {
